@@ -1,4 +1,5 @@
 """Small AST utilities shared by the rule modules (facts as exported by tools/dsx)."""
+import re
 
 
 def strip(e):
@@ -227,6 +228,9 @@ def _split_top(s, seps):
     return None
 
 
+_INTLIT = re.compile(r"^(0[xX][0-9a-fA-F]+|\d+)[uUlL]*$")
+
+
 def C(s):
     """canonical form of an expected expression text (fully parenthesised binary operators as printed by txt())"""
     s = s.replace(" ", "")
@@ -265,6 +269,17 @@ def C(s):
                 l, op, r = C(sp[0]), sp[1], C(sp[2])
                 if op in _FLIP and l > r:
                     l, r, op = r, l, _FLIP[op]
+                # E12 / E11 of the facts normaliser: a literal operand of a commutative operator stands on the right, and a
+                # multiplication by a power of two is a shift
+                if op in ("*", "+", "|", "&", "^") and _INTLIT.match(l) and not _INTLIT.match(r):
+                    l, r = r, l
+                if op == "*" and _INTLIT.match(r) and not _INTLIT.match(l):
+                    try:
+                        v = int(r.rstrip("uUlL"), 0)
+                        if v >= 2 and v & (v - 1) == 0:
+                            op, r = "<<", str(v.bit_length() - 1)
+                    except ValueError:
+                        pass
                 return "(%s%s%s)" % (l, op, r)
         return "(" + C(body) + ")"
     # call: name(args)
@@ -678,6 +693,40 @@ def struct_like(by_pat):
     return res
 
 
+_FRESH = [0]
+
+
+def _fresh_locals(body):
+    """every inlined copy of a helper gets its own local declarations (a helper inlined twice would otherwise share the decl ids
+    of its locals between the copies, and whatever is keyed by decl id - initialisers, identities - would mix them up)"""
+    decl = set()
+
+    def v(n):
+        if n.get("k") == "Decl":
+            for x in n.get("vars", []):
+                if "d" in x:
+                    decl.add(x["d"])
+        elif n.get("k") == "RangeFor" and isinstance(n.get("var"), dict) and "d" in n["var"]:
+            decl.add(n["var"]["d"])
+    walk(body, v)
+    if not decl:
+        return body
+    _FRESH[0] += 1
+    base = 100000000 + _FRESH[0] * 100000
+    m = {d: base + i for i, d in enumerate(sorted(decl, key=str))}
+
+    def r(n):
+        if isinstance(n, list):
+            return [r(x) for x in n]
+        if not isinstance(n, dict):
+            return n
+        o = {k: r(v2) for k, v2 in n.items()}
+        if "d" in o and o["d"] in m and (o.get("k") == "Ref" or "k" not in o or o.get("k") is None):
+            o["d"] = m[o["d"]]
+        return o
+    return r(body)
+
+
 def inlined_body(fn, by_pat, depth=2, _stack=(), keep=(), mark=None):
     import copy
 
@@ -688,6 +737,8 @@ def inlined_body(fn, by_pat, depth=2, _stack=(), keep=(), mark=None):
             return node
         if node.get("k") == "Ref" and node.get("d") in m:
             return copy.deepcopy(m[node["d"]])
+        if node.get("k") == "This" and "this" in m:
+            return copy.deepcopy(m["this"])
         return {k: subst(v, m) for k, v in node.items()}
 
     def rec(s, d):
@@ -699,9 +750,11 @@ def inlined_body(fn, by_pat, depth=2, _stack=(), keep=(), mark=None):
             c = strip(s["e"])
             cal = by_pat.get(c.get("cpat"))
             if cal is not None and cal is not fn and cal.get("body") is not None and cal.get("rect") == fn.get("rect") and cal.get("ret") == "void" and (cal.get("access", 2) != 0 or cal.get("rect") in struct_like(by_pat)) and not (keep(cal.get("name") or "") if callable(keep) else cal.get("name") in keep) \
-                    and cal["pat"] not in _stack and len(cal.get("params", [])) == len(c.get("args", [])) and (c.get("obj") is None or strip(c["obj"]).get("k") == "This"):
+                    and cal["pat"] not in _stack and len(cal.get("params", [])) == len(c.get("args", [])) and (c.get("obj") is None or strip(c["obj"]).get("k") in ("This", "Ref")):
                 m = {p["d"]: a for p, a in zip(cal["params"], c["args"])}
-                body = subst(cal["body"], m)
+                if c.get("obj") is not None and strip(c["obj"]).get("k") == "Ref":
+                    m["this"] = strip(c["obj"])      # tgt.helper(..): the helper's `this` is tgt
+                body = _fresh_locals(subst(cal["body"], m))
                 inner = inlined_body({"body": body, "rect": cal.get("rect"), "pat": cal["pat"]}, by_pat, d - 1, _stack + (fn.get("pat"), cal["pat"]), keep, mark)
                 if mark is not None and mark(cal.get("name") or ""):
                     # the call itself stays visible (it is what some rule looks for) and its body follows it
@@ -823,7 +876,7 @@ def root_views(fns):
                 c = strip(n["e"])
                 cal = by_pat.get(c.get("cpat"))
                 if cal is not None and cal is not f and cal.get("body") is not None and cal.get("rect") == f.get("rect") and cal.get("ret") == "void" \
-                        and len(cal.get("params", [])) == len(c.get("args", [])) and (c.get("obj") is None or strip(c["obj"]).get("k") == "This") \
+                        and len(cal.get("params", [])) == len(c.get("args", [])) and (c.get("obj") is None or strip(c["obj"]).get("k") in ("This", "Ref")) \
                         and (cal.get("access", 2) != 0 or cal.get("rect") in sl):
                     helper.add(cal["pat"])
         walk(f["body"], hv)
